@@ -342,7 +342,72 @@ _cfg_folder = Contract(
     ensures=['result == base_path.joinpath(".jedi")'],
 )
 
+def _region_script_path(func):
+    """Script.__init__ up to and including the statement that binds self.path"""
+    body = [s_ for s_ in func.body if not (isinstance(s_, ast.Expr) and isinstance(s_.value, ast.Constant))]
+    for i, s_ in enumerate(body):
+        if isinstance(s_, ast.Assign) and any(isinstance(t, ast.Attribute) and t.attr == 'path'
+                                              and isinstance(t.value, ast.Name) and t.value.id == 'self'
+                                              for t in s_.targets):
+            return body[:i + 1]
+    return None
+
+
+def _replay_script_path(inp):
+    import os, tempfile, shutil
+    from pathlib import Path
+    from pyvc.replay import run_real
+    import jedi
+    d = os.path.realpath(tempfile.mkdtemp(prefix='c20sp_', dir='/var/tmp'))
+    old = os.getcwd()
+    try:
+        os.makedirs(os.path.join(d, 'src', 'tools'))
+        for n in ('main.py', 'c20helper.py'):
+            with open(os.path.join(d, 'src', 'tools', n), 'w') as f:
+                f.write('marker = 1\n')
+        os.chdir(d)
+        rel = os.path.join('src', 'tools', 'main.py')
+        arg = rel if inp['relative'] else os.path.join(d, rel)
+        arg = Path(arg) if inp['as_path'] else arg
+
+        def go():
+            pr = jedi.Project(d, sys_path=[])
+            sc = jedi.Script('import c20helper\n', path=arg, project=pr)
+            return {'path': str(sc.path), 'abs': sc.path.is_absolute(),
+                    'sys_path': list(sc._inference_state.get_sys_path())}
+        out = run_real(go)
+        return {'EXPECTED': {'path': os.path.join(d, rel), 'abs': True,
+                             'sys_path': [d, os.path.join(d, 'src'), os.path.join(d, 'src', 'tools')]}}, out
+    finally:
+        os.chdir(old)
+        shutil.rmtree(d, ignore_errors=True)
+
+
+def _script_path_contract(shape, ptype):
+    return Contract(
+        id='C20.Script.__init__.path[%s]' % shape, prop='C20',
+        clause='the buffer location a Script hands to the inference state (script_path, whose ancestor directories '
+               'inside the project are appended to the search path) is ABSOLUTE in every notation of the path argument '
+               '(str or Path, relative or absolute) and None iff no path was given - establishes what '
+               'Project._get_sys_path assumes about script_path',
+        file='jedi/api/__init__.py', qualname='Script.__init__', region=_region_script_path,
+        params={'self': Obj('Script20'), 'code': ANY, 'path': Opt(ptype), 'environment': ANY, 'project': ANY},
+        families=['Script20'],
+        ensures=['implies(path is None, self.path is None)',
+                 'implies(path is not None, self.path is not None and '
+                 'the(self.path) == Path(the(path)).absolute())'],
+        witness={}, replay=_replay_script_path, concrete_only=True,
+        witness_library=[{'relative': r, 'as_path': a} for r in (False, True) for a in (False, True)],
+        concrete_ensures=['all(result[k] == EXPECTED[k] for k in EXPECTED)'],
+        notes='symbolic for a Path argument; the str notation re-binds the local from str to Path (outside the '
+              'monomorphic subset) and is covered by the replay library on the real constructor only',
+    )
+
+
+_script_path_path = _script_path_contract('Path', PATH)
+
 FAMILIES = [
+    Family('Script20', fields={'path': Opt(PATH), '_orig_path': ANY}),
     Family('ProjectInit20', fields={'_path': PATH, '_sys_path': Opt(Seq(STR)), '_smart_sys_path': BOOL,
                                      '_django': BOOL, 'added_sys_path': Seq(STR), '_environment_path': Opt(STR),
                                      '_load_unsafe_extensions': BOOL}),
@@ -362,7 +427,7 @@ FAMILIES = [
                                                     note='memoised on the environment: the same list on every call')}),
 ]
 
-CONTRACTS = [_dedup, _base, _get_sys_path, _swm, _init_str, _init_path, _cfg_folder]
+CONTRACTS = [_dedup, _base, _get_sys_path, _swm, _init_str, _init_path, _cfg_folder, _script_path_path]
 
 
 def register(reg):
